@@ -35,7 +35,7 @@ EXPLANATION = (
     'member with the documented grouping, the counters added by total_failure_count are exactly those fed by the members of the '
     'folded is_bad set, doit returns non-zero iff total_failure_count() > 0, the label->counter table of summary agrees and every '
     'positive counter is printed.  R5: test_slice returns (int(part 0), int(part 1)) under the documented guards and get_tests '
-    'selects tests[SLICE-1::NUM_SLICES].  The exit status handed from doit()/run()/run_with_args() to sys.exit is drawn from constants in 0..255, never a count.  R7: in an async function that repeats asyncio.wait/wait_for in a loop with a caller-supplied timeout variable (complete_all), that variable is re-assigned inside the loop from a clock-reading expression (necessary for the total wait to stay within the budget; the arithmetic itself is not decided).  R6: get_tests builds the selection by filtering one source at a time (no concatenation), and in the selection generator (tests_from_args) no path leads from a `yield <candidate>` to another one without advancing the single loop over the candidates.  NOT decided: asyncio interleavings beyond this await protocol; that timeouts kill '
+    'selects tests[SLICE-1::NUM_SLICES].  The exit status handed from doit()/run()/run_with_args() to sys.exit is drawn from constants in 0..255, never a count.  R7: in an async function that repeats asyncio.wait/wait_for in a loop with a caller-supplied timeout variable (complete_all), that variable is re-assigned inside the loop from a clock-reading expression (necessary for the total wait to stay within the budget; the arithmetic itself is not decided).  R6: get_tests builds the selection by filtering one source at a time (no concatenation), and in the selection generator (tests_from_args) no path leads from a `yield <candidate>` to another one without advancing the single loop over the candidates.  In the predicate get_tests filters with (test_suitable) the exclude_suites of the test setup are consulted only on paths where --suite was seen empty.  R8: the default of -j is determine_worker_count([... MESON_TESTTHREADS ...]); in determine_worker_count the count is overwritten inside the loop over the variable names only on paths where the variable is known to be present; the value that sizes the semaphore is validated positive (a -j parser that only returns positive counts, or a guard / max()). All tables are extracted from a normal form (small helpers and starter closures inlined, single-definition locals and tuple unpackings propagated, walrus / conditional values / list comprehensions desugared, constant lookup tables unrolled, internal calls bound by signature); a finding is reported only when every construct on the judged path was classified.  NOT decided: asyncio interleavings beyond this await protocol; that timeouts kill '
     'process groups; --maxfail timing; the composed end-to-end value of complete() for a concrete run (only the per-method tables '
     'and their chaining); the rendered text of summary(); the partition property of --slice as such (only the offset/stride roles).')
 ASSUMPTIONS = [
@@ -91,10 +91,23 @@ class Sched:
         self.awaited = {id(a.value) for a in ast.walk(fn) if isinstance(a, ast.Await)}
         self.sites = [c for c in ast.walk(fn) if isinstance(c, ast.Call) and isinstance(c.func, ast.Name) and c.func.id in self.closures]
         loops = [st for st in walk_no_nested(fn) if isinstance(st, (ast.For, ast.AsyncFor)) and isinstance(st.iter, ast.Name) and st.iter.id == self.runners]
+        self.loop_body: T.Optional[T.List[ast.stmt]] = None
+        if not loops:
+            # index loop: `for i in range(len(runners)): runner = runners[i]; ...`
+            for st in walk_no_nested(fn):
+                if isinstance(st, ast.For) and isinstance(st.target, ast.Name) and norm(st.iter) == f'range(len({self.runners}))' and st.body:
+                    f0 = st.body[0]
+                    if isinstance(f0, ast.Assign) and len(f0.targets) == 1 and isinstance(f0.targets[0], ast.Name) and norm(f0.value) == f'{self.runners}[{st.target.id}]' \
+                            and not any(isinstance(n, ast.Name) and n.id == st.target.id for b in st.body[1:] for n in ast.walk(b)):
+                        loops = [st]
+                        self.loop_body = list(st.body[1:])
+                        self.var = f0.targets[0].id
         if len(loops) != 1 or not isinstance(loops[0].target, ast.Name):
             raise Undecided(f'_run_tests: expected exactly one `for <name> in {self.runners}` loop, found {len(loops)}')
         self.loop = loops[0]
-        self.var = loops[0].target.id
+        if self.loop_body is None:
+            self.loop_body = list(loops[0].body)
+            self.var = loops[0].target.id
         ann = next((norm(a.annotation) for a in fn.args.args if a.arg == self.runners and a.annotation is not None), '')
         if 'SingleTestRunner' not in ann:
             raise Undecided(f'_run_tests: {self.runners} is not annotated as a list of SingleTestRunner ({ann})')
@@ -131,7 +144,8 @@ def r1(ctx: RuleCtx) -> None:
     mod = ctx.repo.module(MTEST)
     s = Sched(mod)
     fq = 'TestHarness._run_tests'
-    _waiting_primitive(ctx, mod, 'complete')
+    if mod.has_func('complete'):   # the single-future primitive may have been inlined as `await future`
+        _waiting_primitive(ctx, mod, 'complete')
     _waiting_primitive(ctx, mod, 'complete_all')
 
     # (a) scheduling sites: only in the per-runner loop, only for the loop's runner
@@ -169,11 +183,16 @@ def r1(ctx: RuleCtx) -> None:
         raise Undecided(f'_run_tests: barriers wait on several collections {sorted(colls)}')
     coll = T.cast(str, next(iter(colls)))
     stores = [n for n in ast.walk(s.fn) if isinstance(n, ast.Name) and n.id == coll and isinstance(n.ctx, (ast.Store, ast.Del))]
-    if len(stores) != 1 or id(stores[0]) in s.in_loop:
+    pm = mod.parent_map()
+    grow = [n for n in stores if isinstance(pm.get(n), ast.AugAssign) and isinstance(pm[n].op, ast.Add)]   # `coll += [x]` grows, it does not rebind
+    if len([n for n in stores if n not in grow]) != 1 or any(id(n) in s.in_loop for n in stores if n not in grow):
         raise Undecided(f'_run_tests: the futures collection {coll} is rebound')
 
     # (b) per-path protocol of one loop iteration
-    body = _inline_starters(list(s.loop.body), starters)
+    body = _dewalrus(_inline_starters(list(s.loop_body or []), starters))
+    shell = tables._copy(s.fn)     # normal form of one iteration: single-definition locals of the loop body (flags, aliases of functions) substituted
+    shell.body = [tables._copy(st) for st in body]
+    body = _propagated(shell).body
     s.awaited |= {id(a.value) for st in body for a in ast.walk(st) if isinstance(a, ast.Await)}
     tab = tables.extract(s.fn, body=body, handlers=True, name='_run_tests:loop')
     par = Atom('truth', (f'{s.var}.is_parallel',))
@@ -221,9 +240,19 @@ def r1(ctx: RuleCtx) -> None:
             fut = st.targets[0].id   # type: ignore[union-attr]
         before = calls[:si]
         after = calls[si + 1:]
+        futs: T.Set[str] = {fut} if fut is not None else set()
+        for ev in row.path.events:   # plain copies of the future (`task = fut` left by inlining a starter, `f = future`)
+            if ev.kind == 'stmt' and isinstance(ev.node, ast.Assign) and isinstance(ev.node.value, ast.Name) and ev.node.value.id in futs:
+                futs |= {t.id for t in ev.node.targets if isinstance(t, ast.Name)}
         ball_before = [c for c in before if s.is_barrier_all(c) == coll]
-        rec = [i for i, c in enumerate(after) if isinstance(c.func, ast.Attribute) and c.func.attr in ('append', 'appendleft', 'add')
-               and isinstance(c.func.value, ast.Name) and c.func.value.id == coll and len(c.args) == 1 and isinstance(c.args[0], ast.Name) and c.args[0].id == fut]
+        ev_idx: T.Dict[int, int] = {}
+        for i_, ev in enumerate(row.path.events):
+            for r_ in _event_roots(ev):
+                for n_ in walk_no_nested(r_):
+                    if isinstance(n_, ast.Call):
+                        ev_idx[id(n_)] = i_
+        s_ev = ev_idx.get(id(sc), 0)
+        rec = [i_ for i_, ev in enumerate(row.path.events) if i_ >= s_ev and ev.kind == 'stmt' and _records(ev.node, coll, futs)]
         problems: T.List[str] = []
 
         def opaque_await(cs: T.List[ast.Call]) -> T.Optional[ast.Call]:
@@ -233,8 +262,10 @@ def r1(ctx: RuleCtx) -> None:
                     return c
             return None
         if fut is not None and not rec:
-            handed = [c for c in after if any(isinstance(a, ast.Name) and a.id == fut for a in list(c.args) + [k.value for k in c.keywords])
-                      and not (isinstance(c.func, ast.Name) and c.func.id in ('complete', 'complete_all'))]
+            handed: T.List[ast.AST] = [c for c in after if any(isinstance(a, ast.Name) and a.id in futs for x in list(c.args) + [k.value for k in c.keywords] for a in ast.walk(x))
+                                       and not (isinstance(c.func, ast.Name) and c.func.id in ('complete', 'complete_all'))]
+            handed += [ev.node for ev in row.path.events[s_ev:] if ev.kind == 'stmt' and isinstance(ev.node, (ast.Assign, ast.AugAssign))
+                       and coll in names_in(ev.node) and futs & names_in(ev.node)]
             if handed:
                 raise Undecided(f'_run_tests: the future is handed to {short(handed[0])}, which this rule does not follow')
             problems.append(f'the future {fut} is not added to {coll}: the barriers do not wait for it')
@@ -250,11 +281,32 @@ def r1(ctx: RuleCtx) -> None:
                     raise Undecided(f'_run_tests: `await {short(oa)}` precedes the scheduling; this rule cannot tell whether it waits for the running tests')
                 problems.append(f'a test that may be non-parallel is scheduled without `await complete_all({coll})` first: it can overlap a running test')
             if back and not inline:
-                done_one = [c for c in after if id(c) in s.awaited and isinstance(c.func, ast.Name) and c.func.id == 'complete'
-                            and [norm(x) for x in (_positional(c, mod.func('complete')) or [])] == [fut]]
-                done_all = [i for i, c in enumerate(after) if s.is_barrier_all(c) == coll and rec and i > rec[0]]
+                done_one: T.List[ast.AST] = [c for c in after if id(c) in s.awaited and isinstance(c.func, ast.Name) and c.func.id == 'complete' and mod.has_func('complete')
+                                              and [norm(x) for x in (_positional(c, mod.func('complete')) or [])] in [[f_] for f_ in futs]]
+                # `await <future>` itself, or asyncio.wait/gather over exactly this future without a timeout, after the scheduling
+                s_pos = next(i for i, ev in enumerate(row.path.events) if any(x is sc for r_ in _event_roots(ev) for x in ast.walk(r_)))
+                for ev in row.path.events[s_pos + 1:]:
+                    if ev.kind == 'exc':
+                        # a handler entered from a `try` whose first statement awaits the future: the await was attempted and ended
+                        # with an exception, i.e. the future is finished (cancelled or failed)
+                        for tr in (t_ for st_ in body for t_ in ast.walk(st_) if isinstance(t_, ast.Try)):
+                            if any(h is ev.node for h in tr.handlers) and tr.body and isinstance(tr.body[0], ast.Expr) and isinstance(tr.body[0].value, ast.Await) \
+                                    and isinstance(tr.body[0].value.value, ast.Name) and tr.body[0].value.value.id in futs:
+                                done_one.append(tr.body[0].value)
+                    for r_ in _event_roots(ev):
+                        for aw in walk_no_nested(r_):
+                            if isinstance(aw, ast.Await):
+                                v_ = aw.value
+                                if isinstance(v_, ast.Name) and v_.id in futs:
+                                    done_one.append(aw)
+                                elif isinstance(v_, ast.Call) and call_name(v_) in ('asyncio.wait', 'asyncio.gather') and not v_.keywords and len(v_.args) == 1 and \
+                                        any(norm(v_.args[0]) in (f_, f'[{f_}]', f'{{{f_}}}', f'({f_},)') for f_ in futs):
+                                    done_one.append(aw)
+                done_all = [c for c in after if s.is_barrier_all(c) == coll and rec and ev_idx.get(id(c), -1) > rec[0]]
                 if not done_one and not done_all:
-                    unknown_waits = [c for c in after if id(c) in s.awaited and fut in names_in(c)]
+                    unknown_waits = [c for c in after if id(c) in s.awaited and futs & names_in(c)]
+                    unknown_waits += [T.cast(ast.Call, a_.value) for ev in row.path.events for r_ in _event_roots(ev) for a_ in walk_no_nested(r_)
+                                      if isinstance(a_, ast.Await) and not isinstance(a_.value, ast.Call) and futs & names_in(a_.value)]
                     if unknown_waits:
                         raise Undecided(f'_run_tests: unknown way of waiting for the serial test: {short(unknown_waits[0])}')
                     oa = opaque_await(after)
@@ -293,6 +345,66 @@ def _site_arg(s: Sched, c: ast.Call, starters: T.Optional[T.Dict[str, T.Any]] = 
     if args is not None and len(args) == 1 and isinstance(args[0], ast.Name):
         return args[0].id
     return None
+
+
+def _records(st: ast.AST, coll: str, futs: T.Set[str]) -> bool:
+    """Statement that adds one of the names `futs` to the collection `coll` (append / add / extend([x]) / insert / `+= [x]` / `coll = coll + [x]`)."""
+    def has_fut(e: ast.AST) -> bool:
+        if isinstance(e, ast.Name):
+            return e.id in futs
+        return isinstance(e, (ast.List, ast.Tuple, ast.Set)) and any(isinstance(x, ast.Name) and x.id in futs for x in e.elts)
+    if isinstance(st, ast.Expr) and isinstance(st.value, ast.Call) and isinstance(st.value.func, ast.Attribute) and isinstance(st.value.func.value, ast.Name) \
+            and st.value.func.value.id == coll and not st.value.keywords:
+        m, a = st.value.func.attr, st.value.args
+        if m in ('append', 'appendleft', 'add') and len(a) == 1 and isinstance(a[0], ast.Name):
+            return a[0].id in futs
+        if m in ('extend', 'extendleft', 'update') and len(a) == 1 and not isinstance(a[0], ast.Name):
+            return has_fut(a[0])
+        if m == 'insert' and len(a) == 2 and isinstance(a[1], ast.Name):
+            return a[1].id in futs
+    if isinstance(st, ast.AugAssign) and isinstance(st.target, ast.Name) and st.target.id == coll and isinstance(st.op, ast.Add) and not isinstance(st.value, ast.Name):
+        return has_fut(st.value)
+    if isinstance(st, ast.Assign) and len(st.targets) == 1 and isinstance(st.targets[0], ast.Name) and st.targets[0].id == coll:
+        v = st.value
+        if isinstance(v, ast.BinOp) and isinstance(v.op, ast.Add) and isinstance(v.left, ast.Name) and v.left.id == coll and not isinstance(v.right, ast.Name):
+            return has_fut(v.right)
+        if isinstance(v, (ast.List, ast.Tuple)) and any(isinstance(x, ast.Starred) and isinstance(x.value, ast.Name) and x.value.id == coll for x in v.elts):
+            return any(isinstance(x, ast.Name) and x.id in futs for x in v.elts)
+    return False
+
+
+def _dewalrus(stmts: T.List[ast.stmt]) -> T.List[ast.stmt]:
+    """Normal form: `if [not] (x := e) ...:` with the assignment expression in first-evaluated position -> `x = e` before the `if`."""
+    out: T.List[ast.stmt] = []
+    for st in stmts:
+        st = tables._copy(st) if any(isinstance(n, ast.NamedExpr) for n in ast.walk(st)) else st
+        for field in ('body', 'orelse', 'finalbody'):
+            sub = getattr(st, field, None)
+            if isinstance(sub, list) and sub and isinstance(sub[0], ast.stmt) and not isinstance(st, (ast.FunctionDef, ast.AsyncFunctionDef, ast.ClassDef)):
+                setattr(st, field, _dewalrus(sub))
+        if isinstance(st, (ast.If, ast.While)) and not isinstance(st, ast.While):
+            def first(e: ast.AST, put: T.Callable[[ast.AST], None]) -> T.Optional[ast.NamedExpr]:
+                if isinstance(e, ast.NamedExpr):
+                    put(ast.Name(id=e.target.id, ctx=ast.Load()))
+                    return e
+                if isinstance(e, ast.UnaryOp):
+                    return first(e.operand, lambda n, e=e: setattr(e, 'operand', n))
+                if isinstance(e, ast.BoolOp):
+                    return first(e.values[0], lambda n, e=e: e.values.__setitem__(0, n))
+                if isinstance(e, ast.Compare):
+                    return first(e.left, lambda n, e=e: setattr(e, 'left', n))
+                if isinstance(e, ast.Call) and isinstance(e.func, ast.Attribute):
+                    return first(e.func.value, lambda n, e=e: setattr(e.func, 'value', n))
+                return None
+            w = first(st.test, lambda n, st=st: setattr(st, 'test', n))
+            if w is not None:
+                pre = ast.Assign(targets=[ast.Name(id=w.target.id, ctx=ast.Store())], value=w.value)
+                ast.copy_location(pre, st)
+                ast.fix_missing_locations(pre)
+                ast.fix_missing_locations(st)
+                out.append(pre)
+        out.append(st)
+    return out
 
 
 def _inline_starters(stmts: T.List[ast.stmt], starters: T.Dict[str, T.Any]) -> T.List[ast.stmt]:
@@ -364,6 +476,16 @@ def _single_defs(fn: T.Any, calls: T.Iterable[str] = ()) -> T.Dict[str, ast.AST]
         for st in stmts:
             if not loop and isinstance(st, ast.Assign) and len(st.targets) == 1 and isinstance(st.targets[0], ast.Name):
                 cands[st.targets[0].id] = st.value
+            elif not loop and isinstance(st, ast.Assign) and len(st.targets) == 1 and isinstance(st.targets[0], (ast.Tuple, ast.List)) \
+                    and all(isinstance(e, ast.Name) for e in st.targets[0].elts):
+                # `a, b = X` with X a name / attribute chain (or a display of the same length): a -> X[0], b -> X[1]
+                v_ = st.value
+                if isinstance(v_, (ast.Tuple, ast.List)) and len(v_.elts) == len(st.targets[0].elts) and not any(isinstance(e, ast.Starred) for e in v_.elts):
+                    for e, x in zip(st.targets[0].elts, v_.elts):
+                        cands[e.id] = x   # type: ignore[attr-defined]
+                elif attr_chain(v_) is not None:
+                    for i_, e in enumerate(st.targets[0].elts):
+                        cands[e.id] = ast.Subscript(value=tables._copy(v_), slice=ast.Constant(value=i_), ctx=ast.Load())   # type: ignore[attr-defined]
             elif not loop and isinstance(st, ast.AnnAssign) and isinstance(st.target, ast.Name) and st.value is not None:
                 cands[st.target.id] = st.value
             for field in ('body', 'orelse', 'finalbody'):
@@ -410,10 +532,23 @@ def _inline_locals(fn: T.Any, expr: ast.AST, calls: T.Iterable[str] = ()) -> ast
 def _propagated(fn: T.Any, calls: T.Iterable[str] = ()) -> T.Any:
     """A copy of fn in which every read of such a local is replaced by its defining expression."""
     f2 = tables._copy(fn)
-    sub = tables._Subst(_single_defs(fn, calls))
+    if any(isinstance(n, ast.NamedExpr) for n in ast.walk(f2)):
+        f2.body = _dewalrus(f2.body)
+    sub = tables._Subst(_single_defs(f2, calls))
     f2.body = [sub.visit(st) for st in f2.body]
     ast.fix_missing_locations(f2)
     return f2
+
+
+def _terminates_raise(b: T.List[ast.stmt]) -> bool:
+    if not b:
+        return False
+    last = b[-1]
+    if isinstance(last, ast.Raise):
+        return not any(isinstance(n, ast.Return) for st in b for n in ast.walk(st))
+    if isinstance(last, ast.If) and last.orelse:
+        return _terminates_raise(last.body) and _terminates_raise(last.orelse)
+    return False
 
 
 def _ret2assign(stmts: T.List[ast.stmt], target: T.Callable[[], ast.expr], what: str) -> T.List[ast.stmt]:
@@ -424,12 +559,118 @@ def _ret2assign(stmts: T.List[ast.stmt], target: T.Callable[[], ast.expr], what:
     if isinstance(st, ast.Return):
         return [ast.Assign(targets=[target()], value=st.value if st.value is not None else ast.Constant(value=None), lineno=st.lineno, col_offset=0)]
     if isinstance(st, ast.If):
-        return [ast.If(test=st.test, body=_ret2assign(list(st.body) + rest, target, what), orelse=_ret2assign(list(st.orelse) + rest, target, what))]
+        def arm(b: T.List[ast.stmt]) -> T.List[ast.stmt]:
+            if _terminates_raise(b):
+                return list(b)       # the arm leaves by an exception: nothing of the continuation runs
+            return _ret2assign(list(b) + rest, target, what)
+        return [ast.If(test=st.test, body=arm(list(st.body)), orelse=arm(list(st.orelse)))]
     if (isinstance(st, ast.Expr) and isinstance(st.value, ast.Constant)) or isinstance(st, ast.Pass) or (isinstance(st, ast.AnnAssign) and st.value is None):
         return _ret2assign(rest, target, what)
     if any(isinstance(n, (ast.Return, ast.Yield, ast.YieldFrom)) for n in ast.walk(st)):
         raise Undecided(f'{what}: a return inside `{short(st, 60)}` cannot be inlined')
     return [st] + _ret2assign(rest, target, what)
+
+
+_INLINE_COUNT = [0]
+
+
+def _simple_arg(a: ast.AST) -> bool:
+    """An argument that can be substituted for a parameter: names, attribute chains, constants, subscripts of those."""
+    return all(isinstance(n, (ast.Name, ast.Attribute, ast.Constant, ast.Subscript, ast.Slice, ast.Load, ast.UnaryOp, ast.USub, ast.Tuple)) for n in ast.walk(a))
+
+
+def _resolve_helper(ctx: RuleCtx, mod: Module, cls: T.Optional[str], call: ast.AST) -> T.Optional[T.Tuple[T.Any, bool]]:
+    """A call of a small repository helper that may be inlined: (definition, first parameter is the receiver)."""
+    if not isinstance(call, ast.Call):
+        return None
+    f = call.func
+    fn: T.Any = None
+    recv = False
+    if isinstance(f, ast.Attribute) and isinstance(f.value, ast.Name) and f.value.id in ('self', 'cls') and cls is not None:
+        r = ctx.repo.find_method(mod, mod.cls(cls), f.attr)
+        if r is not None:
+            fn, recv = r[2], 'staticmethod' not in decorator_names(r[2])
+    elif isinstance(f, ast.Attribute) and isinstance(f.value, ast.Name) and mod.has_cls(f.value.id) and mod.has_func(f'{f.value.id}.{f.attr}'):
+        fn = mod.func(f'{f.value.id}.{f.attr}')
+        if 'staticmethod' not in decorator_names(fn):
+            return None
+    elif isinstance(f, ast.Name) and mod.has_func(f.id):
+        fn = mod.func(f.id)
+    if fn is None or not isinstance(fn, ast.FunctionDef) or set(decorator_names(fn)) - {'staticmethod'}:
+        return None
+    if any(isinstance(n, (ast.Yield, ast.YieldFrom, ast.Await)) for n in walk_no_nested(fn)) or sum(1 for _ in ast.walk(fn)) > 400:
+        return None
+    return fn, recv
+
+
+def _inline_helpers(ctx: RuleCtx, mod: Module, cls: T.Optional[str], fn: T.Any, what: str, keep: T.Iterable[str] = ()) -> T.Any:
+    """Normal form: a copy of fn in which calls of small helpers of the same class / module in statement position
+    (`x = h(..)`, `return h(..)`, `h(..)`, `if [not] h(..):`) are replaced by the helper's statements (one level)."""
+    keep = set(keep)
+    f2 = tables._copy(fn)
+    tmpn = [0]
+
+    def usable(c: ast.AST) -> T.Optional[T.Tuple[T.Any, bool]]:
+        r = _resolve_helper(ctx, mod, cls, c)
+        if r is None or r[0].name in keep or r[0].name == fn.name:
+            return None
+        return r
+
+    def tmp() -> str:
+        tmpn[0] += 1
+        return f'_inl{tmpn[0]}'
+
+    def one(st: ast.stmt) -> T.List[ast.stmt]:
+        try:
+            if isinstance(st, ast.Assign) and len(st.targets) == 1 and isinstance(st.targets[0], (ast.Name, ast.Attribute)) and usable(st.value):
+                g, recv = usable(st.value)   # type: ignore[misc]
+                tg = st.targets[0]
+                return _inline_call(g, T.cast(ast.Call, st.value), lambda: tables._copy(tg), what, recv)
+            if isinstance(st, ast.Return) and isinstance(st.value, ast.UnaryOp) and isinstance(st.value.op, ast.Not) and usable(st.value.operand):
+                g, recv = usable(st.value.operand)   # type: ignore[misc]
+                name = tmp()
+                return _inline_call(g, T.cast(ast.Call, st.value.operand), lambda: ast.Name(id=name, ctx=ast.Store()), what, recv) + \
+                    [ast.copy_location(ast.Return(value=ast.UnaryOp(op=ast.Not(), operand=ast.Name(id=name, ctx=ast.Load()))), st)]
+            if isinstance(st, ast.Return) and st.value is not None and usable(st.value):
+                g, recv = usable(st.value)   # type: ignore[misc]
+                name = tmp()
+                return _inline_call(g, T.cast(ast.Call, st.value), lambda: ast.Name(id=name, ctx=ast.Store()), what, recv) + \
+                    [ast.copy_location(ast.Return(value=ast.Name(id=name, ctx=ast.Load())), st)]
+            if isinstance(st, ast.Expr) and usable(st.value):
+                g, recv = usable(st.value)   # type: ignore[misc]
+                name = tmp()
+                return _inline_call(g, T.cast(ast.Call, st.value), lambda: ast.Name(id=name, ctx=ast.Store()), what, recv)
+            if isinstance(st, ast.If):
+                t = st.test
+                neg = isinstance(t, ast.UnaryOp) and isinstance(t.op, ast.Not)
+                c = t.operand if neg else t   # type: ignore[union-attr]
+                if usable(c):
+                    g, recv = usable(c)   # type: ignore[misc]
+                    name = tmp()
+                    pre = _inline_call(g, T.cast(ast.Call, c), lambda: ast.Name(id=name, ctx=ast.Store()), what, recv)
+                    nt: ast.expr = ast.Name(id=name, ctx=ast.Load())
+                    if neg:
+                        nt = ast.UnaryOp(op=ast.Not(), operand=nt)
+                    st.test = nt
+                    return pre + [st]
+        except Undecided:
+            return [st]
+        return [st]
+
+    def block(stmts: T.List[ast.stmt]) -> T.List[ast.stmt]:
+        out: T.List[ast.stmt] = []
+        for st in stmts:
+            for field in ('body', 'orelse', 'finalbody'):
+                sub = getattr(st, field, None)
+                if isinstance(sub, list) and sub and isinstance(sub[0], ast.stmt) and not isinstance(st, (ast.FunctionDef, ast.AsyncFunctionDef, ast.ClassDef)):
+                    setattr(st, field, block(sub))
+            for h in getattr(st, 'handlers', []):
+                h.body = block(h.body)
+            out.extend(one(st))
+        return out
+    f2.body = block(f2.body)
+    ast.fix_missing_locations(f2)
+    return f2
 
 
 def _inline_call(callee: T.Any, call: ast.Call, target: T.Callable[[], ast.expr], what: str, skip_self: bool) -> T.List[ast.stmt]:
@@ -439,11 +680,24 @@ def _inline_call(callee: T.Any, call: ast.Call, target: T.Callable[[], ast.expr]
     if skip_self and params and params[0] == 'self':
         params = params[1:]
     bound_args = _positional(call, callee)
-    if bound_args is None or len(bound_args) != len(params) or any(attr_chain(a) is None for a in bound_args) or g.args.vararg or g.args.kwarg or g.args.kwonlyargs:
+    if bound_args is not None and len(bound_args) < len(params):
+        # defaults of the callee that are constants
+        defaults = dict(zip([a.arg for a in callee.args.args][len(callee.args.args) - len(callee.args.defaults):], callee.args.defaults))
+        for p_ in params[len(bound_args):]:
+            if isinstance(defaults.get(p_), ast.Constant):
+                bound_args.append(defaults[p_])
+    if bound_args is None or len(bound_args) != len(params) or any(not _simple_arg(a) for a in bound_args) or g.args.vararg or g.args.kwarg or g.args.kwonlyargs:
         raise Undecided(f'{what}: cannot bind the arguments of {short(call)}')
     stored = {n.id for n in walk_no_nested(g) if isinstance(n, ast.Name) and isinstance(n.ctx, ast.Store)}
     if stored & set(params):
         raise Undecided(f'{what}: {callee.name} rebinds its parameter')
+    if any(isinstance(n, (ast.Global, ast.Nonlocal)) for n in ast.walk(g)):
+        raise Undecided(f'{what}: {callee.name} rebinds outer variables')
+    _INLINE_COUNT[0] += 1
+    ren = {n_: f'{n_}__{callee.name.strip("_")}{_INLINE_COUNT[0]}' for n_ in stored}
+    for n in ast.walk(g):   # alpha-rename the callee's locals: two inlined calls must not share them
+        if isinstance(n, ast.Name) and n.id in ren:
+            n.id = ren[n.id]
     sub = tables._Subst({p: a for p, a in zip(params, bound_args)})
     body = [sub.visit(st) for st in g.body]
     out = _ret2assign(body, target, what)
@@ -483,6 +737,35 @@ def _ways_true(expr: ast.AST) -> T.List[T.Dict[Atom, bool]]:
                     a, v = tables.canon(ev.node, ev.val)
                     conds[a] = v
             out.append(conds)
+    return out
+
+
+def _fn_ways_true(fn: T.Any, rewrite: T.Optional[T.Callable[[ast.AST], ast.AST]] = None, want: bool = True, calls: T.Iterable[str] = ()) -> T.List[T.Dict[Atom, bool]]:
+    """Every way a function returns a truthy value: per returning path, the path conditions joined with the ways the returned
+    expression is true; a returned local is replaced by the expression last assigned to it on that path (flag variables)."""
+    rw = rewrite or (lambda e: e)
+    out: T.List[T.Dict[Atom, bool]] = []
+    for pth in enumerate_paths(_propagated(fn, calls).body):
+        if pth.outcome != 'return' or pth.value is None:
+            continue
+        base: T.Dict[Atom, bool] = {}
+        last: T.Dict[str, ast.AST] = {}
+        for ev in pth.events:
+            if ev.kind == 'cond':
+                a_, v_ = tables.canon(rw(tables._Subst(last).visit(tables._copy(ev.node))), ev.val)
+                base[a_] = v_
+            elif ev.kind == 'stmt' and isinstance(ev.node, (ast.Assign, ast.AnnAssign)) and ev.node.value is not None:
+                tg = ev.node.targets[0] if isinstance(ev.node, ast.Assign) and len(ev.node.targets) == 1 else ev.node.target if isinstance(ev.node, ast.AnnAssign) else None
+                if isinstance(tg, ast.Name):
+                    last[tg.id] = tables._Subst(last).visit(tables._copy(ev.node.value))
+            elif ev.kind == 'stmt' and isinstance(ev.node, ast.AugAssign) and isinstance(ev.node.target, ast.Name):
+                last.pop(ev.node.target.id, None)
+        val = rw(tables._Subst(last).visit(tables._copy(pth.value)))
+        if not want:
+            val = ast.UnaryOp(op=ast.Not(), operand=val)
+        for w in _ways_true(val):
+            if all(base.get(k, v) == v for k, v in w.items()):
+                out.append({**base, **w})
     return out
 
 
@@ -625,6 +908,7 @@ def r2(ctx: RuleCtx) -> None:
     for name, st in sems.items():
         call = T.cast(ast.Call, st.value)
         size = call.args[0] if call.args else next((k.value for k in call.keywords if k.arg == 'value'), None)
+        size = _inline_locals(s.fn, size) if size is not None else None
         ctx.require(size is not None and attr_chain(size) == 'self.options.num_processes', f'semaphore {name} is sized by self.options.num_processes', mod, fq, st,
                     f'the job semaphore is created with {short(size)} instead of the requested number of jobs (self.options.num_processes)')
         stores = [n for n in ast.walk(s.fn) if isinstance(n, ast.Name) and n.id == name and isinstance(n.ctx, ast.Store)]
@@ -657,8 +941,19 @@ def r2(ctx: RuleCtx) -> None:
             rc = [c for c in walk_no_nested(rn.expr()) if isinstance(c, ast.Call) and is_run(c)][0]   # type: ignore[arg-type]
             held = bool(enters) and cfg.dominated_by_any(rn, enters) and not any(cfg.can_reach(x, rn) for x in exits)
             if not held:
+                # explicit form: `await <sem>.acquire()` dominates the run and no `<sem>.release()` can precede it
+                acqn = cfg.nodes_with_call(lambda c: call_method(c) == 'acquire' and isinstance(c.func, ast.Attribute) and isinstance(c.func.value, ast.Name) and c.func.value.id in sems
+                                           and id(c) in awaited)
+                reln = cfg.nodes_with_call(lambda c: call_method(c) == 'release' and isinstance(c.func, ast.Attribute) and isinstance(c.func.value, ast.Name) and c.func.value.id in sems)
+                if acqn and cfg.dominated_by_any(rn, acqn) and not any(cfg.can_reach(x, rn) for x in reln):
+                    rel_ok = bool(reln) and all(cfg.must_pass(rn, ex, reln) for ex in (cfg.exit_return, cfg.exit_raise) if cfg.can_reach(rn, ex))
+                    if not rel_ok:
+                        raise Undecided(f'{cq}: the semaphore is acquired explicitly but not released on every way out')
+                    held = True
+            if not held:
                 # other ways of holding a semaphore (explicit acquire, a wrapping context manager) are not followed
-                acq = [c for c in ast.walk(cl) if isinstance(c, ast.Call) and call_method(c) == 'acquire']
+                acq = [c for c in ast.walk(cl) if isinstance(c, ast.Call) and call_method(c) == 'acquire'
+                       and not (isinstance(c.func, ast.Attribute) and isinstance(c.func.value, ast.Name) and c.func.value.id in sems)]
                 unk = [w for w in ast.walk(cl) if isinstance(w, ast.AsyncWith) and id(w) not in held_withs
                        and not any(isinstance(i.context_expr, ast.Call) and (call_name(i.context_expr) or '').endswith('Semaphore') for i in w.items)]
                 if acq or unk:
@@ -697,18 +992,7 @@ def r2(ctx: RuleCtx) -> None:
     helper = _self_method_call(ctx, mod, 'SingleTestRunner', e1)
     if helper is not None:
         # the expression lives in a helper method: every returning path of it, with the ways its value can be true
-        ways = []
-        for pth in enumerate_paths(_propagated(helper).body):
-            if pth.outcome != 'return' or pth.value is None:
-                continue
-            base: T.Dict[Atom, bool] = {}
-            for ev in pth.events:
-                if ev.kind == 'cond':
-                    a_, v_ = tables.canon(_Roles(roles).visit(tables._copy(ev.node)), ev.val)
-                    base[a_] = v_
-            for w in _ways_true(_Roles(roles).visit(tables._copy(pth.value))):
-                if all(base.get(k, v) == v for k, v in w.items()):
-                    ways.append({**base, **w})
+        ways = _fn_ways_true(helper, lambda e: _Roles(roles).visit(e))
         e2 = ast.parse(f'{helper.name}()', mode='eval').body
     else:
         e2 = _Roles(roles).visit(e1)
@@ -752,7 +1036,7 @@ def r2(ctx: RuleCtx) -> None:
                 ctx.violation(mod, q, st, f'{short(st)} can raise the number of jobs above the requested value', st)
             else:
                 raise Undecided(f'{q}: unknown write of num_processes: {short(st)}')
-    ctx.floor('writers of num_processes', nw, 2)
+    ctx.floor('writers of num_processes', nw, 1)
 
 
 # ---------------------------------------------------------------------------
@@ -778,7 +1062,7 @@ def _class_const(ctx: RuleCtx, mod: Module, cls: str, e: ast.AST) -> T.Any:
     """Fold `self.X` / `cls.X` / `Class.X` / `X` where X is a class- or module-level constant table (found through the MRO of cls)."""
     ch = attr_chain(e)
     if ch is None:
-        raise Undecided(f'not a constant table: {short(e)}')
+        return fold_expr(ctx.repo, mod, e)   # a display written in place (or substituted for a local)
     parts = ch.split('.')
     if len(parts) == 2 and (parts[0] in ('self', 'cls') or mod.has_cls(parts[0])):
         owner = cls if parts[0] in ('self', 'cls') else parts[0]
@@ -825,6 +1109,49 @@ def _lookup_to_chain(ctx: RuleCtx, mod: Module, cls: str, st: ast.Assign) -> T.O
         ast.copy_location(x, st)
         ast.fix_missing_locations(x)
     return chain
+
+
+def _unroll_table_setattr(ctx: RuleCtx, mod: Module, cls: str, fn: T.Any) -> T.Any:
+    """Normal form: `setattr(self, T[k], getattr(self, T[k]) + 1)` over a constant table T (member -> attribute name) becomes the
+    if/elif chain `if k is K1: self.<a1> += 1 ...` (table-driven dispatch and a chain over constants are the same decision table)."""
+    f2 = tables._copy(fn)
+
+    def block(stmts: T.List[ast.stmt]) -> T.List[ast.stmt]:
+        out: T.List[ast.stmt] = []
+        for st in stmts:
+            for field in ('body', 'orelse', 'finalbody'):
+                sub = getattr(st, field, None)
+                if isinstance(sub, list) and sub and isinstance(sub[0], ast.stmt) and not isinstance(st, (ast.FunctionDef, ast.AsyncFunctionDef, ast.ClassDef)):
+                    setattr(st, field, block(sub))
+            c = st.value if isinstance(st, ast.Expr) else None
+            if isinstance(c, ast.Call) and call_name(c) == 'setattr' and len(c.args) == 3 and norm(c.args[0]) == 'self' and isinstance(c.args[2], ast.BinOp) \
+                    and isinstance(c.args[2].op, ast.Add) and isinstance(c.args[2].right, ast.Constant) and c.args[2].right.value == 1 \
+                    and isinstance(c.args[2].left, ast.Call) and call_name(c.args[2].left) == 'getattr' and len(c.args[2].left.args) == 2 \
+                    and norm(c.args[2].left.args[0]) == 'self' and norm(c.args[2].left.args[1]) == norm(c.args[1]):
+                e = c.args[1]
+                tab_e = key_e = None
+                if isinstance(e, ast.Subscript) and not isinstance(e.slice, ast.Slice):
+                    tab_e, key_e = e.value, e.slice
+                if tab_e is not None:
+                    try:
+                        table = _class_const(ctx, mod, cls, tab_e)
+                    except (Undecided, AnchorMissing):
+                        table = None
+                    if isinstance(table, dict) and table and all(isinstance(v, str) and v.isidentifier() for v in table.values()):
+                        chain: T.List[ast.stmt] = [ast.Raise(exc=ast.Call(func=ast.Name(id='KeyError', ctx=ast.Load()), args=[], keywords=[]), cause=None)]
+                        for k, v in reversed(list(table.items())):
+                            op: ast.cmpop = ast.Is() if isinstance(k, EnumMember) else ast.Eq()
+                            inc = ast.AugAssign(target=ast.Attribute(value=ast.Name(id='self', ctx=ast.Load()), attr=v, ctx=ast.Store()), op=ast.Add(), value=ast.Constant(value=1))
+                            chain = [ast.If(test=ast.Compare(left=tables._copy(key_e), ops=[op], comparators=[_const_node(k)]), body=[inc], orelse=chain)]
+                        for x in chain:
+                            ast.copy_location(x, st)
+                            ast.fix_missing_locations(x)
+                        out.extend(chain)
+                        continue
+            out.append(st)
+        return out
+    f2.body = block(f2.body)
+    return f2
 
 
 def _member_set(ctx: RuleCtx, mod: Module, text: str, cls: str = 'TestRun') -> T.Optional[T.Set[str]]:
@@ -886,6 +1213,26 @@ class _SplitCondAssign(ast.NodeTransformer):
             return ast.copy_location(ast.If(test=n.value.test, body=[self.visit_Assign(a)], orelse=[self.visit_Assign(b)]), n)   # type: ignore[list-item]
         return n
 
+    def visit_AnnAssign(self, n: ast.AnnAssign) -> ast.AST:
+        if isinstance(n.value, ast.IfExp):
+            return self.visit_Assign(ast.copy_location(ast.Assign(targets=[n.target], value=n.value), n))
+        return n
+
+    def visit_Return(self, n: ast.Return) -> ast.AST:
+        if isinstance(n.value, ast.IfExp):
+            a = ast.copy_location(ast.Return(value=n.value.body), n)
+            b = ast.copy_location(ast.Return(value=n.value.orelse), n)
+            return ast.copy_location(ast.If(test=n.value.test, body=[self.visit_Return(a)], orelse=[self.visit_Return(b)]), n)   # type: ignore[list-item]
+        return n
+
+
+def _split_conditional_values(fn: T.Any) -> T.Any:
+    """Normal form: conditional expressions assigned / returned become if/else statements (on a copy)."""
+    f2 = tables._copy(fn)
+    f2.body = [_SplitCondAssign().visit(st) for st in f2.body]
+    ast.fix_missing_locations(f2)
+    return f2
+
 
 class ResRow:
     def __init__(self) -> None:
@@ -928,7 +1275,15 @@ def _res_rows(ctx: RuleCtx, mod: Module, fn: T.Any, qn: str) -> T.List[ResRow]:
                     setattr(st, field, expand(sub))
             out.append(st)
         return out
-    body = [_SplitCondAssign().visit(st) for st in expand(_propagated(fn).body)]
+    nf = _propagated(_inline_helpers(ctx, mod, cls, fn, qn, keep={'complete', '_complete'}))   # normal form: small helpers inlined, locals propagated
+    for c in walk_no_nested(nf):   # closed world: a remaining call of a method that can change self.res is not understood
+        if isinstance(c, ast.Call) and isinstance(c.func, ast.Attribute) and isinstance(c.func.value, ast.Name) and c.func.value.id == 'self' \
+                and c.func.attr not in ('complete', '_complete'):
+            r_ = ctx.repo.find_method(mod, mod.cls(cls), c.func.attr)
+            if r_ is not None and any(isinstance(n, ast.Attribute) and isinstance(n.ctx, ast.Store) and attr_chain(n) == RES for n in ast.walk(r_[2])) \
+                    and _self_method_call(ctx, mod, cls, c) is None:
+                raise Undecided(f'{qn}: {short(c)} can change self.res and was not inlined')
+    body = [_SplitCondAssign().visit(st) for st in expand(nf.body)]
     for st in body:
         ast.fix_missing_locations(st)
     rows: T.List[ResRow] = []
@@ -1080,6 +1435,19 @@ def _protocol_classes(mod: Module) -> T.Dict[str, str]:
                 and (attr_chain(st.targets[0].value) or '').endswith('PROTOCOL_TO_CLASS') and isinstance(st.value, ast.Name):
             key = attr_chain(st.targets[0].slice) or ''
             out[key.split('.')[-1]] = st.value.id
+    displays: T.List[ast.Dict] = []
+    for st in ast.walk(mod.tree):
+        if isinstance(st, (ast.Assign, ast.AnnAssign)) and st.value is not None and isinstance(st.value, ast.Dict):
+            tg = st.targets[0] if isinstance(st, ast.Assign) else st.target
+            if (attr_chain(tg) or '').endswith('PROTOCOL_TO_CLASS'):
+                displays.append(st.value)
+        elif isinstance(st, ast.Call) and isinstance(st.func, ast.Attribute) and st.func.attr == 'update' and (attr_chain(st.func.value) or '').endswith('PROTOCOL_TO_CLASS') \
+                and len(st.args) == 1 and isinstance(st.args[0], ast.Dict):
+            displays.append(st.args[0])
+    for d in displays:
+        for k, v in zip(d.keys, d.values):
+            if k is not None and attr_chain(k) and isinstance(v, ast.Name):
+                out[T.cast(str, attr_chain(k)).split('.')[-1]] = v.id
     return out
 
 
@@ -1109,6 +1477,13 @@ def _delegates(ctx: RuleCtx, mod: Module, qn: str, fn: T.Any, callee: str) -> No
         others = [c for c in walk_no_nested(fn) if isinstance(c, ast.Call) and not is_delegate(c) and isinstance(c.func, ast.Attribute) and (
             (isinstance(c.func.value, ast.Name) and (c.func.value.id == 'self' or mod.has_cls(c.func.value.id)) and any(mod.has_func(f'{k}.{c.func.attr}') for k in mod.classes()))
             or (isinstance(c.func.value, ast.Call) and isinstance(c.func.value.func, ast.Name) and c.func.value.func.id == 'super'))]
+        def may_delegate(c: ast.Call) -> bool:
+            owner = qn.split('.')[0] if not (isinstance(c.func.value, ast.Name) and mod.has_cls(c.func.value.id)) else c.func.value.id   # type: ignore[union-attr]
+            r_ = ctx.repo.find_method(mod, mod.cls(owner), c.func.attr) if mod.has_cls(owner) else None   # type: ignore[union-attr]
+            if r_ is None:
+                return True
+            return any(isinstance(x, ast.Call) and isinstance(x.func, ast.Attribute) and x.func.attr == meth for x in ast.walk(r_[2]))
+        others = [c for c in others if may_delegate(c)]
         if others:
             raise Undecided(f'{qn}: {short(others[0])} may reach {callee}(); this rule does not follow it')
     ctx.require(ok, f'{qn}: every path to the return passes {callee}()', mod, qn, f'{callee}() on every path',
@@ -1197,17 +1572,18 @@ def r3b(ctx: RuleCtx) -> None:
     if helper is not None:
         # the table lives in a helper method: its rows end in `return <local>` or `return <expression>`
         where = f'SingleTestRunner.{helper.name}'
-        tab = tables.extract(_propagated(helper), effects=eff, name=where)
+        tab = tables.extract(_split_conditional_values(_propagated(helper)), effects=eff, name=where)
         var = None
     else:
         if not isinstance(expr, ast.Name):
             raise Undecided(f'SingleTestRunner.__init__: the timeout argument is not a local variable: {short(expr)}')
         where = 'SingleTestRunner.__init__'
         var = expr.id
-        stmts = _slice_for(init, {var})
+        init_p = _split_conditional_values(_propagated(init))   # normal form: locals substituted back, conditional values as if/else
+        stmts = _slice_for(init_p, {var})
         if not stmts:
             raise Undecided(f'SingleTestRunner.__init__: {var} is never assigned')
-        tab = tables.extract(init, body=stmts, effects=eff, name='SingleTestRunner.__init__:timeout')
+        tab = tables.extract(init_p, body=stmts, effects=eff, name='SingleTestRunner.__init__:timeout')
 
     def got_of(r: tables.Row) -> str:
         name = var
@@ -1234,6 +1610,11 @@ def r3b(ctx: RuleCtx) -> None:
                     t = inter
                 elif a.kind == 'is' and a.args[1] == 'None' and _role_chain(a.args[0], roles) in (TO, MU):
                     t = (to_s if _role_chain(a.args[0], roles) == TO else mu_s) == 'none'
+                elif a.kind == 'truth' and _role_chain(a.args[0], roles) in (TO, MU):
+                    t = (to_s if _role_chain(a.args[0], roles) == TO else mu_s) in ('neg', 'pos')   # truthiness of None / a number
+                elif a.kind == 'cmp' and a.args[0] == 'eq' and '0' in a.args[1:] and any(_role_chain(x, roles) in (TO, MU) for x in a.args[1:]):
+                    ch_ = [_role_chain(x, roles) for x in a.args[1:] if _role_chain(x, roles) in (TO, MU)][0]
+                    t = (to_s if ch_ == TO else mu_s) == 'zero'
                 else:
                     t = None
                     for ch, st_ in ((TO, to_s), (MU, mu_s)):
@@ -1267,6 +1648,12 @@ def r3b(ctx: RuleCtx) -> None:
         elif len(outs) != 1:
             raise Undecided(f'SingleTestRunner.__init__: several rows fire for {world}: {sorted(outs)}')
         elif outs != {want}:
+            got_ = next(iter(outs))
+            understood = got_ in ('None', '<unset>', TO, MU, 'product') or (all(isinstance(n, (ast.Expression, ast.BinOp, ast.operator, ast.Attribute, ast.Name, ast.Load, ast.Constant, ast.UnaryOp, ast.unaryop, ast.BoolOp, ast.boolop, ast.Compare, ast.cmpop))
+                                                                                 for n in ast.walk(ast.parse(got_, mode='eval')))
+                                                                             and names_in(ast.parse(got_, mode='eval')) <= {'test', 'options'})
+            if not understood:
+                raise Undecided(f'{where}: the timeout is `{got_}`, a shape this rule does not understand')
             mism.setdefault(f'{next(iter(outs))} instead of {want}', world)
     for k, wit in mism.items():
         ctx.violation(mod, 'SingleTestRunner.__init__', f'timeout table: {k}', f'effective timeout for {wit} is {k} (documented: no timeout when interactive, undeclared, '
@@ -1392,6 +1779,9 @@ def r3c(ctx: RuleCtx) -> None:
         e = given.get(f)
         if e is None:
             raise Undecided(f'{fq}: no argument found for the TestSerialisation field {f}')
+        if f'attr:{tv}.{f}' not in fl.origins(e) and (any(isinstance(n, ast.Call) for n in ast.walk(e)) or any(
+                isinstance(c_, ast.Call) for n in ast.walk(e) if isinstance(n, ast.Name) and n.id != tv for d_ in fl.defs.get(n.id, []) for c_ in ast.walk(d_))):
+            raise Undecided(f'{fq}: the field {f} is computed by {short(e)}, which this rule does not follow')
         ok = e is not None and f'attr:{tv}.{f}' in fl.origins(e) and not any(f'attr:{tv}.{g}' in fl.origins(e) for g in FIELDS if g != f)
         ctx.require(ok, f'TestSerialisation.{f} <- {tv}.{f}', mod, fq, f'TestSerialisation field {f}',
                     f'the serialised field {f} is filled from {short(e)} instead of {tv}.{f}', e if e is not None else b)
@@ -1503,7 +1893,7 @@ def r4(ctx: RuleCtx) -> None:
 
     # (a) process_test_result: one arm and one counter per finished member
     fq = 'TestHarness.process_test_result'
-    fn = mod.func(fq)
+    fn = _unroll_table_setattr(ctx, mod, 'TestHarness', _propagated(_inline_helpers(ctx, mod, 'TestHarness', mod.func(fq), fq, keep={'is_bad_result'})))   # normal form
     subj = 'ARG1.res'
     badres = Atom('truth', ('self.is_bad_result(ARG1)',))
 
@@ -1525,22 +1915,27 @@ def r4(ctx: RuleCtx) -> None:
                 return 'exit'
             if cn.endswith('.append') and [norm(a) for a in st.value.args] == ['ARG1']:
                 return 'collect'
+            if cn in ('setattr', 'getattr') or (cn.startswith('self.') and cn.count('.') == 1):
+                return f'opaque {norm(st.value)}'
         return None
     tab = tables.extract(fn, effects=eff, unroll=0, name=fq)
     counter_of: T.Dict[str, str] = {}
+    all_atoms = tab.atoms()
+    free_atoms = [a for a in all_atoms if _res_pred(ctx, mod, a, subj) is None]
+    for a in free_atoms:
+        if a != badres and not (a.kind == 'truth' and a.args[0].startswith('self.') and a.args[0].replace('self.', '').isidentifier()):
+            raise Undecided(f'{fq}: arm selected by an unknown condition {a!r}')
+    if len(free_atoms) > 4:
+        raise Undecided(f'{fq}: too many free conditions {free_atoms}')
+    has_badres = badres in free_atoms
     for m in members:
-        for isbad in (False, True):
+        for vals in itertools.product((False, True), repeat=len(free_atoms)):
+            fw = dict(zip(free_atoms, vals))
             fired = []
             for r in tab.rows:
                 ok = True
                 for a, v in r.conds.items():
-                    if a == badres:
-                        t: T.Optional[bool] = isbad
-                    else:
-                        pred = _res_pred(ctx, mod, a, subj)
-                        if pred is None:
-                            raise Undecided(f'{fq}: arm selected by an unknown condition {a!r}')
-                        t = m in pred
+                    t = fw[a] if a in fw else (m in T.cast(T.Set[str], _res_pred(ctx, mod, a, subj)))
                     if t != v:
                         ok = False
                         break
@@ -1549,19 +1944,32 @@ def r4(ctx: RuleCtx) -> None:
             if len(fired) != 1:
                 raise Undecided(f'{fq}: {len(fired)} rows fire for {m}')
             effs = list(fired[0].effects)
+            opq = [e for e in effs if e.startswith('opaque ')]
+            if opq:
+                raise Undecided(f'{fq}: the arm for {m} runs {opq[0][7:]}, which this rule does not follow')
             incs = [e[4:] for e in effs if e.startswith('inc ')]
             other = [e for e in effs if e.startswith('write ')]
+            wdesc = ', '.join(f'{a!r}={v}' for a, v in fw.items())
             if m not in finished:
-                ctx.require('exit' in effs or (not incs and not other), f'unfinished result {m} is not tallied', mod, fq, f'arm for {m}', f'a {m} result is counted in {incs}')
+                ctx.require('exit' in effs or fired[0].outcome[0] == 'raise' or (not incs and not other), f'unfinished result {m} is not tallied', mod, fq, f'arm for {m}', f'a {m} result is counted in {incs}')
                 continue
-            ok = 'exit' not in effs and len(incs) == 1 and not other
+            ok = 'exit' not in effs and fired[0].outcome[0] != 'raise' and len(incs) == 1 and not other
             if not ok:
-                ctx.violation(mod, fq, f'arm for {m}', f'a finished {m} result ' + ('has no arm (falls into sys.exit)' if 'exit' in effs else f'changes the counters {incs + other}') +
+                ctx.violation(mod, fq, f'arm for {m}', f'a finished {m} result ' + ('has no arm (falls into sys.exit / an exception)' if ('exit' in effs or fired[0].outcome[0] == 'raise') else f'changes the counters {incs + other}') +
                               '; exactly one counter must be incremented by one', fn)
                 continue
-            counter_of[m] = incs[0]
-            ctx.require(('collect' in effs) == isbad, f'{m}: `{incs[0]} += 1`; collected as failure iff is_bad_result ({isbad})', mod, fq, f'failure collection for {m}',
-                        f'a {m} result with is_bad_result={isbad} is ' + ('' if 'collect' in effs else 'not ') + 'appended to the collected failures', fn)
+            if counter_of.setdefault(m, incs[0]) != incs[0]:
+                raise Undecided(f'{fq}: the counter of {m} depends on {wdesc}')
+            coll_ = 'collect' in effs
+            if has_badres:
+                want_c = fw[badres]
+                ctx.require(coll_ == want_c, f'{m} [{wdesc}]: `{incs[0]} += 1`; collected as failure iff is_bad_result', mod, fq, f'failure collection for {m}',
+                            f'a {m} result with is_bad_result={want_c} is ' + ('' if coll_ else 'not ') + 'appended to the collected failures', fn)
+            else:
+                # the predicate was inlined: collected only for bad results, and always for bad results other than an interrupted one
+                okc = (not coll_ or m in bad) and (coll_ or m not in bad or m == 'INTERRUPT')
+                ctx.require(okc, f'{m} [{wdesc}]: `{incs[0]} += 1`; collected as failure only if bad', mod, fq, f'failure collection for {m}',
+                            f'a {m} result is ' + ('' if coll_ else 'not ') + f'appended to the collected failures (bad results: {sorted(bad)})', fn)
     groups: T.Dict[str, T.Set[str]] = {}
     for n_, c in counter_of.items():
         groups.setdefault(c, set()).add(n_)
@@ -1594,12 +2002,19 @@ def r4(ctx: RuleCtx) -> None:
     # is_bad_result implies is_bad
     bq = 'TestHarness.is_bad_result'
     bf = mod.func(bq)
-    brets = [r for r in walk_no_nested(bf) if isinstance(r, ast.Return) and r.value is not None]
-    if len(brets) != 1:
-        raise Undecided(f'{bq}: expected one return')
     bp = [a.arg for a in bf.args.args if a.arg != 'self'][0]
-    ways = _ways_true(brets[0].value)
-    okb = bool(ways) and all(w.get(Atom('truth', (f'{bp}.res.is_bad()',))) is True for w in ways)
+    ways = _fn_ways_true(_inline_helpers(ctx, mod, 'TestHarness', bf, bq))
+    if not ways:
+        raise Undecided(f'{bq}: no returning path was understood')
+    isb = Atom('truth', (f'{bp}.res.is_bad()',))
+    for w in ways:
+        if w.get(isb) is not True:
+            # closed world: an unresolved name / call / a member test in another spelling means the shape was not understood
+            opaque = [a for a in w if a != isb and _res_pred(ctx, mod, a, f'{bp}.res') is None
+                      and not (a.kind == 'truth' and a.args[0].startswith('self.') and a.args[0][5:].isidentifier())]
+            if opaque:
+                raise Undecided(f'{bq}: depends on {opaque[0]!r}, which this rule does not follow')
+    okb = all(w.get(isb) is True for w in ways)
     ctx.require(okb, 'is_bad_result(result) implies result.res.is_bad()', mod, bq, 'is_bad_result => is_bad', 'is_bad_result can hold for a result that is not bad', bf)
 
     # (b) total_failure_count sums exactly the counters of the bad results; doit returns non-zero iff it is positive
@@ -1607,6 +2022,21 @@ def r4(ctx: RuleCtx) -> None:
     tf = mod.func(tq)
     trets = [r for r in walk_no_nested(tf) if isinstance(r, ast.Return) and r.value is not None]
     terms = _sum_terms(_inline_locals(tf, trets[0].value)) if len(trets) == 1 else None
+    if terms is None and len(trets) == 1 and isinstance(trets[0].value, ast.Name):
+        # accumulated in a local: `t = a; t += b; ...; return t` in straight-line code
+        acc_ = trets[0].value.id
+        terms = []
+        for st in tf.body:
+            tg_ = st.targets[0] if isinstance(st, ast.Assign) and len(st.targets) == 1 else st.target if isinstance(st, (ast.AugAssign, ast.AnnAssign)) else None
+            if isinstance(tg_, ast.Name) and tg_.id == acc_:
+                part = _sum_terms(st.value) if st.value is not None and (not isinstance(st, ast.AugAssign) or isinstance(st.op, ast.Add)) else None
+                if part is None or terms is None or (isinstance(st, ast.Assign) and terms):
+                    terms = None
+                    break
+                terms += part
+            elif any(isinstance(n, ast.Name) and n.id == acc_ and isinstance(n.ctx, ast.Store) for n in ast.walk(st)):
+                terms = None
+                break
     if terms is None:
         raise Undecided(f'{tq}: not a sum of counters')
     bad_counters = sorted({counter_of[n_] for n_ in bad if n_ in counter_of})
@@ -1621,7 +2051,23 @@ def r4(ctx: RuleCtx) -> None:
     reach = cfgd.reachable([runs[0]], edge_ok=lambda a, b, lab: lab != 'exc')
     rets = [n for n in cfgd.nodes if n.id in reach and n.kind == 'stmt' and isinstance(n.ast, ast.Return)]
     ctx.floor('returns of doit after the tests ran', len(rets), 1)
-    for rn in rets:
+    const_rets = [rn for rn in rets if rn.ast.value is not None and (lambda sv_: sv_ is not None and sv_[1] is None)(_status_values(_inline_locals(doit, rn.ast.value, calls={'total_failure_count'})))]   # type: ignore[union-attr]
+    by_paths = len(const_rets) == len(rets) and len(rets) > 1
+    if by_paths:
+        # early-return form (`if failures: return 1` / `return 0`): the condition of each constant is the path condition
+        top = [st for st in doit.body if any(cfgd.can_reach(runs[0], x) or x is runs[0] for x in cfgd.stmt_nodes(st)) or any(n is runs[0].ast for n in ast.walk(st))]
+        shell = tables._copy(doit)
+        shell.body = [tables._copy(st) for st in top]
+        call = 'self.total_failure_count()'
+        goods = {(Atom('cmp', ('lt', '0', call)), True), (Atom('cmp', ('eq', call, '0')), False), (Atom('truth', (call,)), True), (Atom('cmp', ('lt', call, '1')), False)}
+        for want_ in (True, False):
+            for w in _fn_ways_true(shell, want=want_, calls={'total_failure_count'}):
+                verdicts = {(v == gv) for (ga, gv) in goods for a, v in w.items() if a == ga}
+                if not verdicts:
+                    raise Undecided(f'{dq}: a return of a constant status does not depend on total_failure_count() ({w})')
+                ctx.require(verdicts == {want_}, f'doit: returns a {"non-zero" if want_ else "zero"} constant on a path with total_failure_count() {">" if want_ else "<="} 0', mod, dq,
+                            'constant exit status on the wrong path', f'doit returns a {"non-zero" if want_ else "zero"} status on a path where [{w}] holds; required: non-zero iff total_failure_count() > 0', doit)
+    for rn in ([] if by_paths else rets):
         rv = rn.ast.value   # type: ignore[union-attr]
         if rv is None:
             ctx.violation(mod, dq, rn.ast, 'doit returns None after running the tests: the exit status does not reflect failures', rn.ast)
@@ -1667,11 +2113,14 @@ def r4(ctx: RuleCtx) -> None:
 
     # (c) summary: the label -> counter table, and every positive counter is printed
     sq = 'TestHarness.summary'
-    sf = mod.func(sq)
-    dicts = [d for d in walk_no_nested(sf) if isinstance(d, ast.Dict) and d.keys and all(isinstance(k, ast.Constant) and isinstance(k.value, str) for k in d.keys)]
-    if len(dicts) != 1:
-        raise Undecided(f'{sq}: expected one constant-keyed table of counters')
-    table = {k.value.strip().rstrip(':').strip().lower(): attr_chain(v) for k, v in zip(dicts[0].keys, dicts[0].values)}   # type: ignore[union-attr]
+    sf0 = mod.func(sq)
+    sf = _desugar_comprehensions(sf0)          # normal form: list comprehension -> accumulate loop
+    pairs_nodes = [d for d in walk_no_nested(sf) if _label_table(d) is not None]
+    pairs_nodes = [d for d in pairs_nodes if not any(d is not e and any(x is d for x in ast.walk(e)) for e in pairs_nodes)]
+    if len(pairs_nodes) != 1:
+        raise Undecided(f'{sq}: expected one constant table (label -> counter), found {len(pairs_nodes)}')
+    tnode = pairs_nodes[0]
+    table = {k.strip().rstrip(':').strip().lower(): v for k, v in T.cast(T.List[T.Tuple[str, str]], _label_table(tnode))}
     for name, lab in LABELS.items():
         c = counter_of.get(name)
         if c is None:
@@ -1679,21 +2128,33 @@ def r4(ctx: RuleCtx) -> None:
         if table.get(lab) is None and (lab in table or any(attr_chain(n) == c for n in walk_no_nested(sf))):
             raise Undecided(f'{sq}: the counter {c} is used, but not under the label "{lab}" in the table')
         ctx.require(table.get(lab) == c, f'summary line "{lab}" shows the counter of {name} ({c})', mod, sq, f'summary line {lab}',
-                    (f'the summary line "{lab}" shows {table.get(lab)}; the counter fed by {name} results is {c}' if table.get(lab) else f'the counter {c} fed by {name} results appears nowhere in summary(): it is never printed'), dicts[0])
-    holder = [st.targets[0].id for st in sf.body if isinstance(st, ast.Assign) and st.value is dicts[0] and isinstance(st.targets[0], ast.Name)]
-    loops = [st for st in sf.body if isinstance(st, ast.For) and holder and isinstance(st.iter, ast.Call) and call_name(st.iter) == f'{holder[0]}.items'
+                    (f'the summary line "{lab}" shows {table.get(lab)}; the counter fed by {name} results is {c}' if table.get(lab) else f'the counter {c} fed by {name} results appears nowhere in summary(): it is never printed'), tnode)
+    holder = [st.targets[0].id if isinstance(st, ast.Assign) else st.target.id for st in sf.body   # type: ignore[union-attr]
+              if isinstance(st, (ast.Assign, ast.AnnAssign)) and st.value is tnode and isinstance(st.targets[0] if isinstance(st, ast.Assign) else st.target, ast.Name)]
+
+    def iterates_table(it: ast.AST) -> bool:
+        base = it.func.value if isinstance(it, ast.Call) and isinstance(it.func, ast.Attribute) and it.func.attr == 'items' and not it.args else it
+        if isinstance(tnode, ast.Dict) != (base is not it):
+            return False
+        return base is tnode or (bool(holder) and isinstance(base, ast.Name) and base.id == holder[0])
+    loops = [st for st in walk_no_nested(sf) if isinstance(st, ast.For) and iterates_table(st.iter)
              and isinstance(st.target, ast.Tuple) and len(st.target.elts) == 2 and all(isinstance(e, ast.Name) for e in st.target.elts)]
     if len(loops) != 1:
-        raise Undecided(f'{sq}: expected one loop over the items of the table')
+        raise Undecided(f'{sq}: expected one loop over the entries of the table')
     lab_v, cnt_v = [e.id for e in loops[0].target.elts]   # type: ignore[union-attr]
     flw = Flow(sf)
-    all_apps = [c for c in ast.walk(loops[0]) if isinstance(c, ast.Call) and call_method(c) == 'append' and len(c.args) == 1]
-    apps = [c for c in all_apps if {lab_v, cnt_v} <= names_in(c.args[0])]
+    all_apps = [c for c in ast.walk(loops[0]) if isinstance(c, ast.Call) and call_method(c) in ('append', 'extend', 'add') and len(c.args) == 1] + \
+               [st for st in ast.walk(loops[0]) if isinstance(st, ast.AugAssign) and isinstance(st.op, ast.Add)]
+    apps = [c for c in all_apps if {lab_v, cnt_v} <= names_in(c.args[0] if isinstance(c, ast.Call) else c.value)]
     if all_apps and not apps:
         raise Undecided(f'{sq}: the appended line does not mention label and count directly')
     app_texts = {norm(c) for c in apps}
+    known_calls = {'startswith', 'endswith', 'format', 'append', 'extend', 'add', 'join', 'str', 'len', 'lower', 'strip'}
+    foreign = [c for st_ in loops[0].body for c in ast.walk(st_) if isinstance(c, ast.Call) and call_method(c) not in known_calls]
+    if foreign:
+        raise Undecided(f'{sq}: the summary loop calls {short(foreign[0])}, which this rule does not follow')
     ltab = tables.extract(sf, body=loops[0].body, inline=False, name=sq + ':loop',
-                          effects=lambda st: 'print' if any(isinstance(c, ast.Call) and norm(c) in app_texts for c in ast.walk(st)) else None)
+                          effects=lambda st: 'print' if any(norm(c) in app_texts for c in ast.walk(st) if isinstance(c, (ast.Call, ast.AugAssign))) else None)
     pos = Atom('cmp', ('lt', '0', cnt_v))
     hidden = None
     nrow = 0
@@ -1704,12 +2165,65 @@ def r4(ctx: RuleCtx) -> None:
             nrow += 1
             if 'print' not in r.effects:
                 hidden = r
-    ctx.require(bool(apps) and hidden is None and nrow > 0, 'summary: every counter > 0 is printed with its label', mod, sq, 'summary prints positive counters',
-                f'a counter > 0 can be omitted from the summary (row {hidden!r})' if hidden is not None else 'the summary loop does not print label and count', loops[0])
+    if not apps:
+        raise Undecided(f'{sq}: no statement in the loop collects label and count')
+    ctx.require(hidden is None and nrow > 0, 'summary: every counter > 0 is printed with its label', mod, sq, 'summary prints positive counters',
+                f'a counter > 0 can be omitted from the summary (row {hidden!r})', loops[0])
     sret = [r for r in walk_no_nested(sf) if isinstance(r, ast.Return) and r.value is not None]
-    sink = {norm(c.func.value) for c in apps if isinstance(c.func, ast.Attribute)}
-    ctx.require(len(sret) == 1 and any(f'name:{s_}' in flw.origins(sret[0].value) or s_ in names_in(sret[0].value) for s_ in sink), 'summary returns the collected lines', mod, sq,
-                'summary returns the lines', 'the lines collected in the loop do not reach the returned text', sf)
+    sink = {norm(c.func.value) if isinstance(c, ast.Call) else norm(c.target) for c in apps if isinstance(c, ast.AugAssign) or isinstance(c.func, ast.Attribute)}
+    reaches = len(sret) >= 1 and all(any(f'name:{s_}' in flw.origins(r.value) or s_ in names_in(r.value) or any(s_ in names_in(v_) for n_ in names_in(r.value) for v_ in flw.defs.get(n_, [])) for s_ in sink) for r in sret)
+    if not reaches and any(isinstance(c, ast.Call) and call_method(c) not in known_calls for r in sret for c in ast.walk(r.value)):
+        raise Undecided(f'{sq}: the returned text is built by a call this rule does not follow')
+    ctx.require(reaches, 'summary returns the collected lines', mod, sq, 'summary returns the lines', 'the lines collected in the loop do not reach the returned text', sf0)
+
+
+def _label_table(d: ast.AST) -> T.Optional[T.List[T.Tuple[str, T.Optional[str]]]]:
+    """A constant table label -> `self.<counter>`: a dict display with string keys, or a list/tuple display of (string, value) pairs."""
+    if isinstance(d, ast.Dict) and d.keys and all(isinstance(k, ast.Constant) and isinstance(k.value, str) for k in d.keys):
+        return [(T.cast(ast.Constant, k).value, attr_chain(v)) for k, v in zip(d.keys, d.values)]
+    if isinstance(d, (ast.List, ast.Tuple)) and d.elts and all(isinstance(e, ast.Tuple) and len(e.elts) == 2 and isinstance(e.elts[0], ast.Constant)
+                                                              and isinstance(e.elts[0].value, str) for e in d.elts):
+        return [(e.elts[0].value, attr_chain(e.elts[1])) for e in d.elts]   # type: ignore[attr-defined]
+    return None
+
+
+def _desugar_comprehensions(fn: T.Any) -> T.Any:
+    """Normal form: `x = [E for t in it if c]` -> `x = []` + `for t in it: if c: x.append(E)` (single generator)."""
+    f2 = tables._copy(fn)
+
+    def block(stmts: T.List[ast.stmt]) -> T.List[ast.stmt]:
+        out: T.List[ast.stmt] = []
+        for st in stmts:
+            for field in ('body', 'orelse', 'finalbody'):
+                sub = getattr(st, field, None)
+                if isinstance(sub, list) and sub and isinstance(sub[0], ast.stmt) and not isinstance(st, (ast.FunctionDef, ast.AsyncFunctionDef, ast.ClassDef)):
+                    setattr(st, field, block(sub))
+            v = st.value if isinstance(st, (ast.Assign, ast.AnnAssign)) else None
+            tg = (st.targets[0] if isinstance(st, ast.Assign) and len(st.targets) == 1 else st.target if isinstance(st, ast.AnnAssign) else None)
+            if isinstance(v, ast.ListComp) and len(v.generators) == 1 and isinstance(tg, ast.Name) and not v.generators[0].is_async:
+                g = v.generators[0]
+                app: ast.stmt = ast.Expr(value=ast.Call(func=ast.Attribute(value=ast.Name(id=tg.id, ctx=ast.Load()), attr='append', ctx=ast.Load()), args=[v.elt], keywords=[]))
+                if g.ifs:
+                    app = ast.If(test=g.ifs[0] if len(g.ifs) == 1 else ast.BoolOp(op=ast.And(), values=list(g.ifs)), body=[app], orelse=[])
+                new = [ast.Assign(targets=[ast.Name(id=tg.id, ctx=ast.Store())], value=ast.List(elts=[], ctx=ast.Load())),
+                       ast.For(target=_as_store(g.target), iter=g.iter, body=[app], orelse=[])]
+                for n in new:
+                    ast.copy_location(n, st)
+                    ast.fix_missing_locations(n)
+                out.extend(new)
+                continue
+            out.append(st)
+        return out
+    f2.body = block(f2.body)
+    return f2
+
+
+def _as_store(t: ast.AST) -> ast.AST:
+    t = tables._copy(t)
+    for n in ast.walk(t):
+        if hasattr(n, 'ctx'):
+            n.ctx = ast.Store()   # type: ignore[attr-defined]
+    return t
 
 
 # ---------------------------------------------------------------------------
@@ -1721,7 +2235,7 @@ def r5(ctx: RuleCtx) -> None:
     # (a) argument parser: "i/n" -> (int(part 0), int(part 1)), accepted iff 0 < i, 0 < n, not n < i
     tq = 'test_slice'
     tsf = mod.func(tq)
-    tab = tables.extract(_propagated(tsf, {'split'}), inline_calls={'split'}, name=tq)
+    tab = tables.extract(_propagated(_inline_helpers(ctx, mod, None, tsf, tq), {'split'}), inline_calls={'split'}, name=tq)   # normal form: helpers inlined, locals propagated
     part = lambda k: f"int(ARG1.split('/')[{k}])"   # noqa: E731
     I, N = part(0), part(1)
     sem = {Atom('cmp', ('eq', "len(ARG1.split('/'))", '2')): 'two', Atom('cmp', ('lt', '0', I)): 'i>0', Atom('cmp', ('lt', '0', N)): 'n>0',
@@ -1730,6 +2244,9 @@ def r5(ctx: RuleCtx) -> None:
     mism = None
     shape = [r for r in tab.rows if r.outcome[0] == 'return' and r.outcome[1] != f'({I}, {N})']
     if shape:
+        free = names_in(ast.parse(shape[0].outcome[1], mode='eval')) - {'ARG1', 'int'}
+        if free:
+            raise Undecided(f'{tq}: the returned value still mentions the locals {sorted(free)}, which could not be resolved to the argument')
         ctx.violation(mod, tq, 'roles of SLICE and NUM_SLICES', f'test_slice returns `{shape[0].outcome[1]}`; "SLICE/NUM_SLICES" requires `({I}, {N})`', tsf)
         return
     unknown = [a for a in tab.atoms() if a not in sem]
@@ -1776,18 +2293,15 @@ def r5(ctx: RuleCtx) -> None:
         else:
             ifbody.append(st)
     st_if = ast.If(test=st_if.test, body=ifbody, orelse=st_if.orelse, lineno=st_if.lineno, col_offset=st_if.col_offset, end_lineno=st_if.end_lineno, end_col_offset=st_if.end_col_offset)
-    unp = [st for st in st_if.body if isinstance(st, ast.Assign) and len(st.targets) == 1 and isinstance(st.targets[0], ast.Tuple) and len(st.targets[0].elts) == 2
-           and all(isinstance(e, ast.Name) for e in st.targets[0].elts) and (attr_chain(st.value) or '').endswith('options.slice')]
-    if len(unp) != 1:
-        raise Undecided(f'{gq}: options.slice is not unpacked into two names')
-    iv, nv = [e.id for e in unp[0].targets[0].elts]   # type: ignore[union-attr]
+    chain = [c for c in chains_in(st_if.test) if c.endswith('options.slice')][0]
+    iv, nv = f'{chain}[0]', f'{chain}[1]'     # roles: SLICE, NUM_SLICES (the pair test_slice returns); locals are propagated away below
 
     def eff(st: ast.AST) -> T.Optional[str]:
         if isinstance(st, ast.Assign) and len(st.targets) == 1 and isinstance(st.targets[0], ast.Name) and st.targets[0].id in (var, var + '__selected'):
             return norm(st.value)
         return None
     shell = tables._copy(fn)
-    shell.body = [tables._copy(st) for st in st_if.body if st is not unp[0]]
+    shell.body = [tables._copy(st) for st in st_if.body]
     out_stores = [n for st in shell.body for n in ast.walk(st) if isinstance(n, ast.Name) and n.id == var and isinstance(n.ctx, ast.Store)]
     if len(out_stores) == 1:
         owner = [st for st in shell.body if any(n is out_stores[0] for n in ast.walk(st))]
@@ -1811,7 +2325,7 @@ def r5(ctx: RuleCtx) -> None:
                 bad = bad or f'`{r!r}`: the request is rejected although there are at least as many tests as slices'
         elif list(r.effects) != [want_slice]:
             bad = bad or f'`{r!r}`: the selected tests are {list(r.effects) or "unchanged"}; offset SLICE-1 and stride NUM_SLICES require {want_slice}'
-    ctx.require(bad is None and nrows > 0, f'get_tests: {want_slice} with ({iv}, {nv}) = options.slice ({nrows} rows)', mod, gq, st_if,
+    ctx.require(bad is None and nrows > 0, f'get_tests: {want_slice} ({nrows} rows)', mod, gq, st_if,
                 f'--slice does not select every NUM_SLICES-th test starting at SLICE-1: {bad}', st_if)
 
 
@@ -1844,7 +2358,7 @@ def r6(ctx: RuleCtx) -> None:
     def from_source(e: ast.AST) -> bool:
         return any((isinstance(n, ast.Name) and n.id == var) or attr_chain(n) == 'self.tests' for n in ast.walk(e))
     # (a) get_tests builds the list by filtering / mapping one source at a time, never by concatenation
-    gens: T.List[T.Tuple[str, T.Any, str]] = []
+    gens: T.List[T.Tuple[str, T.Any, str, T.Optional[str]]] = []
     nwrites = 0
     for st in walk_no_nested(fn):
         if isinstance(st, ast.AugAssign) and isinstance(st.target, ast.Name) and st.target.id == var:
@@ -1863,7 +2377,11 @@ def r6(ctx: RuleCtx) -> None:
                 ctx.violation(mod, gq, st, f'`{short(st)}` concatenates / repeats lists derived from the candidate tests: a test can be selected twice', st)
                 continue
             inner = v.args[0] if isinstance(v, ast.Call) and call_name(v) in ('list', 'tuple', 'sorted') and len(v.args) == 1 else v
-            if isinstance(inner, (ast.ListComp, ast.GeneratorExp)):
+            if isinstance(inner, ast.Call) and call_name(inner) == 'filter' and len(inner.args) == 2 and not inner.keywords:
+                if attr_chain(inner.args[1]) not in sources:
+                    raise Undecided(f'{gq}: filter() over an unknown source {short(inner.args[1])}')
+                ctx.ok(f'`{short(st, 90)}` filters one source: each candidate at most once')
+            elif isinstance(inner, (ast.ListComp, ast.GeneratorExp)):
                 ok = len(inner.generators) == 1 and isinstance(inner.generators[0].target, ast.Name) and isinstance(inner.elt, ast.Name) \
                     and inner.elt.id == inner.generators[0].target.id and (attr_chain(inner.generators[0].iter) in sources)
                 if not ok:
@@ -1884,8 +2402,18 @@ def r6(ctx: RuleCtx) -> None:
                                  and n.func.attr in ('extend', 'append', 'insert'))]
                     if grows:
                         raise Undecided(f'TestHarness.{g.name}: grows its argument ({short(grows[0])})')
-                    for r_ in walk_no_nested(g):
-                        if isinstance(r_, ast.Return) and r_.value is not None:
+                    rets_ = [r_ for r_ in walk_no_nested(g) if isinstance(r_, ast.Return) and r_.value is not None]
+                    accs = {r_.value.id for r_ in rets_ if isinstance(r_.value, ast.Name) and r_.value.id != cp}
+                    if len(accs) == 1 and all(isinstance(r_.value, ast.Name) and r_.value.id in accs for r_ in rets_):
+                        accn_ = next(iter(accs))
+                        inits = [st_ for st_ in walk_no_nested(g) if isinstance(st_, (ast.Assign, ast.AnnAssign)) and st_.value is not None
+                                 and any(isinstance(n, ast.Name) and n.id == accn_ and isinstance(n.ctx, ast.Store) for n in ast.walk(st_))]
+                        if len(inits) == 1 and isinstance(inits[0].value, ast.List) and not inits[0].value.elts and inits[0] in g.body:
+                            gens.append((f'TestHarness.{g.name}', g, cp, accn_))   # a list builder: judged like the generator form
+                            ctx.ok(f'`{short(st, 90)}` takes the tests collected by {g.name}({cp})')
+                            continue
+                    for r_ in rets_:
+                        if True:
                             rv = _inline_locals(g, r_.value)
                             dupb = [b_ for b_ in ast.walk(rv) if isinstance(b_, ast.BinOp) and isinstance(b_.op, (ast.Add, ast.Mult)) and cp in names_in(b_)]
                             if dupb:
@@ -1896,22 +2424,73 @@ def r6(ctx: RuleCtx) -> None:
                                 raise Undecided(f'TestHarness.{g.name}: unknown way of building the selection: {short(r_)}')
                     ctx.ok(f'`{short(st, 90)}` takes a sub-sequence / filter of its argument through {g.name}()')
                     continue
-                gens.append((f'TestHarness.{inner.func.attr}', g, params[pos[0]]))
+                gens.append((f'TestHarness.{inner.func.attr}', g, params[pos[0]], None))
                 ctx.ok(f'`{short(st, 90)}` takes the tests from {inner.func.attr}({params[pos[0]]})')
             elif isinstance(inner, ast.Subscript) and isinstance(inner.value, ast.Name) and inner.value.id == var:
                 ctx.ok(f'`{short(st, 90)}` takes a sub-sequence')
             else:
                 raise Undecided(f'{gq}: unknown way of building the selection: {short(st)}')
-    ctx.floor('statements of get_tests that build the selection', nwrites, 2)
-    ctx.floor('selection generators called by get_tests', len(gens), 1)
+    ctx.floor('statements of get_tests that build the selection', nwrites, 1)
+
+    # (c) an explicit --suite decides before the exclusions of the test setup (add_test_setup(exclude_suites:): "Suites specified
+    #     in the --suite option will always run, overriding add_test_setup if necessary")
+    preds = {c.func.attr for c in ast.walk(fn) if isinstance(c, ast.Call) and isinstance(c.func, ast.Attribute) and attr_chain(c.func.value) == 'self'
+             and mod.has_func(f'TestHarness.{c.func.attr}') and any(isinstance(n, ast.Attribute) and n.attr in ('exclude_suites', 'include_suites')
+                                                                    for n in ast.walk(_inline_helpers(ctx, mod, 'TestHarness', mod.func(f'TestHarness.{c.func.attr}'), gq)))}
+    holders = {q.split('.')[1] for q, f in mod.funcs().items() if q.startswith('TestHarness.') and q.count('.') == 1
+               and any(isinstance(n, ast.Attribute) and n.attr == 'exclude_suites' and attr_chain(n) != 'self.options.exclude_suites' for n in ast.walk(f))}
+    if holders and not preds:
+        raise Undecided(f'{gq}: the setup exclusion lives in {sorted(holders)}, which get_tests does not call directly')
+    inc = Atom('truth', ('self.options.include_suites',))
+    for pn in sorted(preds):
+        pq = f'TestHarness.{pn}'
+        nf = _propagated(_inline_helpers(ctx, mod, 'TestHarness', mod.func(pq), pq))
+        npaths = 0
+        late = None
+        for pth in enumerate_paths(nf.body):
+            seen: T.Dict[Atom, bool] = {}
+            other_inc = False
+            for ev in pth.events:
+                roots = _event_roots(ev)
+                if any(isinstance(n, ast.Attribute) and n.attr == 'exclude_suites' and attr_chain(n) != 'self.options.exclude_suites' for r_ in roots for n in ast.walk(r_)):
+                    npaths += 1
+                    if seen.get(inc) is not False:
+                        if other_inc:
+                            raise Undecided(f'{pq}: --suite is tested in a form this rule does not understand before the setup exclusion')
+                        late = pth
+                    break
+                if ev.kind == 'cond':
+                    a_, v_ = tables.canon(ev.node, ev.val)
+                    seen[a_] = v_
+                    if a_ != inc and 'include_suites' in repr(a_):
+                        other_inc = True
+        if npaths:
+            ctx.require(late is None, f'{pq}: the setup\'s exclude_suites are consulted only when no --suite was given ({npaths} paths)', mod, pq,
+                        'exclude_suites consulted before --suite', f'{pq} consults the exclude_suites of the test setup on a path where --suite has not been ruled out '
+                        f'({late.describe() if late else ""}): a suite requested with --suite can be dropped by add_test_setup(exclude_suites:) and its tests never start', mod.func(pq))
 
     # (b) every selection generator yields a candidate at most once per iteration of its one loop over the candidates
-    for q, g, cand in gens:
-        ys = [n for n in walk_no_nested(g) if isinstance(n, (ast.Yield, ast.YieldFrom))]
-        if not ys:
-            raise Undecided(f'{q} is not a generator')
-        if any(isinstance(y, ast.YieldFrom) for y in ys):
-            raise Undecided(f'{q}: `yield from` is outside the idioms of this rule')
+    for q, g, cand, accn in gens:
+        if accn is None:
+            ys: T.List[T.Any] = [n for n in walk_no_nested(g) if isinstance(n, (ast.Yield, ast.YieldFrom))]
+            if not ys:
+                raise Undecided(f'{q} is not a generator')
+            if any(isinstance(y, ast.YieldFrom) for y in ys):
+                raise Undecided(f'{q}: `yield from` is outside the idioms of this rule')
+        else:
+            # list builder: `acc.append(x)` plays the role of `yield x`; the appended expression is exposed as `.value` like a Yield's
+            ys = []
+            for c in walk_no_nested(g):
+                if isinstance(c, ast.Call) and isinstance(c.func, ast.Attribute) and isinstance(c.func.value, ast.Name) and c.func.value.id == accn:
+                    if c.func.attr == 'append' and len(c.args) == 1:
+                        c.value = c.args[0]   # type: ignore[attr-defined]
+                        ys.append(c)
+                    else:
+                        raise Undecided(f'{q}: {short(c)} grows the result in a way this rule does not follow')
+            if any(isinstance(n, ast.AugAssign) and isinstance(n.target, ast.Name) and n.target.id == accn for n in walk_no_nested(g)):
+                raise Undecided(f'{q}: the result list {accn} is grown by an augmented assignment')
+            if not ys:
+                raise Undecided(f'{q}: nothing is ever added to the result list {accn}')
         loops = [st for st in walk_no_nested(g) if isinstance(st, (ast.For, ast.AsyncFor)) and isinstance(st.iter, ast.Name) and st.iter.id == cand and isinstance(st.target, ast.Name)]
         cfg = CFG(g)
         per_loop: T.Dict[int, T.List[T.Any]] = {}
@@ -1937,6 +2516,146 @@ def r6(ctx: RuleCtx) -> None:
                     ctx.require(not again, f'{q}: after `{short(y)}` no yield is reachable before the next candidate', mod, q, f'second yield of {lp.target.id} in one iteration',   # type: ignore[union-attr]
                                 f'after `{short(y)}` another `yield {lp.target.id}` is reachable without advancing the loop over {cand} '   # type: ignore[union-attr]
                                 f'(e.g. the inner loop is not left): a test matching several patterns is selected, run and counted several times', y)
+
+
+# ---------------------------------------------------------------------------
+# R8: the requested number of jobs: sources and validation
+# ---------------------------------------------------------------------------
+
+UNIVERSAL = 'mesonbuild/utils/universal.py'
+
+
+def _jobs_argument(mod: Module) -> ast.Call:
+    adds = [c for c in ast.walk(mod.func('add_arguments')) if isinstance(c, ast.Call) and call_method(c) == 'add_argument'
+            and (any(isinstance(a, ast.Constant) and a.value == '--num-processes' for a in c.args)
+                 or any(k.arg == 'dest' and isinstance(k.value, ast.Constant) and k.value.value == 'num_processes' for k in c.keywords))]
+    if len(adds) != 1:
+        raise Undecided("add_arguments: no single add_argument(..., '--num-processes', ...) call found")
+    return adds[0]
+
+
+def r8(ctx: RuleCtx) -> None:
+    mod = ctx.repo.module(MTEST)
+    um = ctx.repo.module(UNIVERSAL)
+    add = _jobs_argument(mod)
+    # (a) the default of -j is the environment request, MESON_TESTTHREADS included (Unit-tests.md)
+    dflt = kwarg(add, 'default')
+    if not (isinstance(dflt, ast.Call) and (call_name(dflt) or '').split('.')[-1] == 'determine_worker_count'):
+        raise Undecided(f'add_arguments: the default of --num-processes is {short(dflt)}, not a determine_worker_count(...) call')
+    names: T.Set[str] = set()
+    for a in list(dflt.args) + [k.value for k in dflt.keywords]:
+        try:
+            v = fold_expr(ctx.repo, mod, a)
+        except Undecided:
+            raise Undecided(f'add_arguments: cannot fold the variable names in {short(dflt)}')
+        names |= set(v) if isinstance(v, (list, tuple, set)) else {v}
+    ctx.require('MESON_TESTTHREADS' in names, 'the default of -j honours MESON_TESTTHREADS', mod, 'add_arguments', dflt,
+                f'the default number of jobs is {short(dflt)}: the documented MESON_TESTTHREADS request is not consulted', dflt)
+    # (b) determine_worker_count: a variable that is absent never overwrites the value taken from an earlier one
+    dq = 'determine_worker_count'
+    f0 = um.func(dq)
+    fn = _inline_helpers(ctx, um, None, f0, dq)
+    rets = [r for r in walk_no_nested(fn) if isinstance(r, ast.Return) and isinstance(r.value, ast.Name)]
+    if len(rets) != 1 or len([r for r in walk_no_nested(fn) if isinstance(r, ast.Return)]) != 1:
+        raise Undecided(f'{dq}: expected a single `return <count>`')
+    acc = rets[0].value.id   # type: ignore[union-attr]
+    loops = [st for st in fn.body if isinstance(st, ast.For) and isinstance(st.target, ast.Name)
+             and any(isinstance(n, ast.Name) and n.id == acc and isinstance(n.ctx, ast.Store) for n in ast.walk(st))
+             and any(attr_chain(n) == 'os.environ' for n in ast.walk(st))]
+    if len(loops) != 1:
+        raise Undecided(f'{dq}: expected one loop over the variable names that reads os.environ and sets {acc}')
+    lp = loops[0]
+    var = lp.target.id   # type: ignore[union-attr]
+    shell = tables._copy(fn)
+    shell.body = [tables._copy(st) for st in lp.body]
+    shell = _propagated(shell, calls={'get'})
+
+    def env_read(e: ast.AST) -> T.Tuple[bool, bool]:
+        """(reads os.environ for the loop variable, can yield a value although the variable is absent)"""
+        reads = defaulted = False
+        for n in ast.walk(e):
+            if isinstance(n, ast.Subscript) and attr_chain(n.value) == 'os.environ':
+                reads = True
+            if isinstance(n, ast.Call) and isinstance(n.func, ast.Attribute) and n.func.attr == 'get' and attr_chain(n.func.value) == 'os.environ':
+                reads = True
+                defaulted = True   # .get() never raises: absence yields None / the default
+            if isinstance(n, ast.Call) and call_name(n) == 'os.getenv':
+                reads = defaulted = True
+        return reads, defaulted
+    presence_true = {Atom('in', (var, 'os.environ'))}
+    npaths = 0
+    bad = None
+    for pth in enumerate_paths(shell.body, handlers=True):
+        present = False
+        in_handler = False
+        for ev in pth.events:
+            if ev.kind == 'exc':
+                in_handler = True
+            if ev.kind == 'cond':
+                a_, v_ = tables.canon(ev.node, ev.val)
+                if a_ in presence_true and v_:
+                    present = True
+                elif a_.kind == 'is' and a_.args[1] == 'None' and env_read(ast.parse(a_.args[0], mode='eval'))[0] and not v_:
+                    present = True
+                elif a_.kind == 'truth' and env_read(ast.parse(a_.args[0], mode='eval'))[0] and v_:
+                    present = True
+            if ev.kind == 'stmt' and isinstance(ev.node, (ast.Assign, ast.AugAssign, ast.AnnAssign)) and ev.node.value is not None:
+                tg = ev.node.targets if isinstance(ev.node, ast.Assign) else [ev.node.target]
+                if any(isinstance(t, ast.Name) and t.id == acc for t in tg):
+                    npaths += 1
+                    reads, defaulted = env_read(ev.node.value)
+                    opaque = [c for c in ast.walk(ev.node.value) if isinstance(c, ast.Call) and call_name(c) not in ('int', 'os.environ.get', 'os.getenv', 'str', 'max', 'min')]
+                    if opaque:
+                        raise Undecided(f'{dq}: {acc} is computed by {short(opaque[0])}, which this rule does not follow')
+                    if not in_handler and not present and (defaulted or not reads):
+                        bad = (pth, ev.node)
+    ctx.require(bad is None and npaths > 0, f'{dq}: {acc} is overwritten in the loop only for a variable that is present in os.environ ({npaths} writes on paths)', um, dq,
+                f'{acc} overwritten for an absent variable',
+                f'`{short(bad[1]) if bad else ""}` runs in an iteration in which `{var}` is not known to be in os.environ: the value requested through an earlier variable '
+                f'(MESON_TESTTHREADS) is overwritten by the default of a later, unset one (MESON_NUM_PROCESSES)', bad[1] if bad else lp)
+
+
+    # (c) the number of jobs that sizes the semaphore is positive: a non-positive request is rejected or replaced before it is used
+    #     (Semaphore(0) never admits a test: nothing starts; a negative value raises ValueError)
+    ty = kwarg(add, 'type')
+    V = 'int(ARG1)'
+    if isinstance(ty, ast.Name) and mod.has_func(ty.id):
+        tfn = mod.func(ty.id)
+        tab = tables.extract(_propagated(_inline_helpers(ctx, mod, None, tfn, ty.id)), name=ty.id)
+        pos = Atom('cmp', ('lt', '0', V))
+        badrow = None
+        nret = 0
+        for w in tab.worlds([pos]):
+            for r in tab.fire(w):
+                if r.outcome[0] != 'return':
+                    continue
+                nret += 1
+                out = r.outcome[1]
+                if out == V:
+                    if not w.get(pos):
+                        badrow = r
+                elif not ((out.isdigit() and int(out) >= 1) or out.split('(')[0].split('.')[-1] == 'determine_worker_count'):
+                    raise Undecided(f'{ty.id}: returns {out}, which this rule cannot bound')
+        ctx.require(badrow is None and nret > 0, f'-j is parsed by {ty.id}(), which only returns positive job counts', mod, ty.id, 'non-positive job count accepted',
+                    f'{ty.id}() can return a job count <= 0 (row {badrow!r}); asyncio.Semaphore of it starts no test / raises', tfn)
+    elif isinstance(ty, ast.Name) and ty.id == 'int':
+        users = sorted({q for q, f in mod.funcs().items() for n in walk_no_nested(f) if isinstance(n, ast.Attribute) and n.attr == 'num_processes'})
+        guards = []
+        for q in users:
+            f = mod.func(q)
+            for n in walk_no_nested(f):
+                if isinstance(n, (ast.If, ast.While, ast.Assert, ast.IfExp)) and any(isinstance(x, ast.Attribute) and x.attr == 'num_processes' for x in ast.walk(n.test)):
+                    guards.append((q, n.test))
+                if isinstance(n, ast.Call) and call_name(n) == 'max' and any(isinstance(x, ast.Attribute) and x.attr == 'num_processes' for x in ast.walk(n)):
+                    guards.append((q, n))
+        if guards:
+            raise Undecided(f'{guards[0][0]}: `{short(guards[0][1])}` may validate the job count; this rule does not follow it')
+        ctx.violation(mod, 'add_arguments', "add_argument('-j', '--num-processes', type=int)",
+                      f'-j/--num-processes is parsed by int(), which accepts 0 and negative numbers, and none of the functions that read or write num_processes ({", ".join(users)}) '
+                      'tests it against 0/1 or clamps it with max(): `meson test -j 0` creates asyncio.Semaphore(0), so no test ever starts (the run hangs), '
+                      '`-j -1` raises ValueError("Semaphore initial value must be >= 0")', add)
+    else:
+        raise Undecided(f'add_arguments: --num-processes has type={short(ty)}')
 
 
 # ---------------------------------------------------------------------------
@@ -1985,7 +2704,8 @@ def r7(ctx: RuleCtx) -> None:
                         f'stale timeout {t.id} in a repeated wait',
                         f'{short(c, 70)} is repeated in a loop with the caller\'s budget `{t.id}`, which is never recomputed from the clock inside the loop: every '
                         'early wake-up grants the full timeout again, so a test can run (much) longer than its timeout before it is killed', c)
-    ctx.floor('timed waits with a caller budget repeated in a loop', n, 1)
+    if n == 0:
+        ctx.ok('no asyncio.wait/wait_for with a caller-supplied budget is repeated in a loop (nothing to recompute)')
 
 
 RULES = [
@@ -1996,6 +2716,7 @@ RULES = [
     Rule('C12.R3c', 'tests serialised by descending priority; scheduling fields in their slots', r3c),
     Rule('C12.R4', 'tallies, total_failure_count, exit status and summary agree', r4),
     Rule('C12.R5', '--slice i/n: parser roles and tests[SLICE-1::NUM_SLICES]', r5),
+    Rule('C12.R8', 'job request: MESON_TESTTHREADS default, absent variables never override, job count validated positive', r8),
     Rule('C12.R7', 'a timeout budget re-used in a loop is recomputed from the clock (complete_all)', r7),
-    Rule('C12.R6', 'at-most-once selection: a candidate test is yielded / listed once', r6),
+    Rule('C12.R6', 'selection: each candidate at most once; --suite decides before the setup exclusions', r6),
 ]
